@@ -620,7 +620,6 @@ pub fn check_main(prop_id: &str, tier: &str) -> i32 {
     let scale: f64 = std::env::var("VERIF_RUNS_SCALE").ok().and_then(|s| s.parse().ok()).unwrap_or(1.0);
     println!("VERIF_SEED={seed} property={} tier={tier} workers={workers}", prop.id);
     let known = load_known();
-    crate::known::set_open(known.iter().filter(|k| k.property == prop.id).map(|k| k.sig.clone()).collect());
 
     let mut aggs: Vec<(usize, BatchAgg)> = Vec::new();
     let mut exit = 0;
@@ -686,7 +685,7 @@ pub fn check_main(prop_id: &str, tier: &str) -> i32 {
     let mut known_lines = Vec::new();
     for k in known.iter().filter(|k| k.property == prop.id) {
         match crate::known::probe(&k.sig) {
-            Some(true) => known_lines.push(format!("KNOWN-FINDING: property={} sig={} {}", k.property, k.sig, k.text)),
+            Some(true) => known_lines.push(format!("KNOWN-FINDING: {}", k.text)),
             Some(false) => println!("note: listed finding {} no longer reproduces", k.sig),
             None => {
                 eprintln!("HARNESS-ERROR KNOWN_FINDINGS.txt names unknown signature {}", k.sig);
